@@ -12,8 +12,8 @@ package c36
 //     holding a timer,
 //   - and the next inspection (0.5 s later) shows the same goroutines in the same calls.
 // In that state no schedule of the remaining program can complete the call, whatever the machine speed.  Anything
-// else (somebody still runnable or sleeping, a call with a timer) keeps waiting; the 150 s watchdog then reports
-// *inconclusive*, never a violation.
+// else (somebody still runnable or sleeping, a call with a timer) keeps waiting; after 150 s without any progress of
+// the traffic the watchdog reports *inconclusive*, never a violation.
 
 import (
 	"fmt"
@@ -191,6 +191,7 @@ func (h *harness) join(phase string, gs []*gor) string {
 	tick := time.NewTicker(500 * time.Millisecond)
 	defer tick.Stop()
 	prevFP := ""
+	lastProgress, lastMove := h.progress.Load(), t0 // the watchdog measures time without any progress of the traffic
 	for _, g := range gs {
 		for !g.finished() {
 			select {
@@ -207,7 +208,10 @@ func (h *harness) join(phase string, gs []*gor) string {
 						phase, strings.Join(stuck, "; "), h.history(tokensIn(strings.Join(stuck, " "))...), clip(dump, 12000))
 				}
 				prevFP = fp
-				if time.Since(t0) > watchdog {
+				if p := h.progress.Load(); p != lastProgress {
+					lastProgress, lastMove = p, time.Now()
+				}
+				if time.Since(lastMove) > watchdog {
 					fmt.Printf("c36: watchdog while waiting for %s; history:\n%s\n%s\n", phase, h.history(), clip(string(debug.Stack()), 2000))
 					for _, x := range h.allGors() {
 						if !x.finished() {
